@@ -538,6 +538,10 @@ def depth0_labels(inner):
 END_TOKENS = [
     (r'if \(strcmp \("([^"]+)", element_name\) == 0\)\s*break;', lambda m: 'stay:' + m.group(1)),
     (r'else if \(strcmp \("([^"]+)", element_name\) == 0\)\s*break;', lambda m: 'stay:' + m.group(1)),
+    # an ignored end tag that only forgets the node attributes are attached to (no state change):
+    # `if (strcmp ("member", element_name) == 0) { ctx->current_typed = NULL; break; }`
+    (r'if \(strcmp \("([^"]+)", element_name\) == 0\)\s*\{\s*ctx->current_typed = NULL;\s*break;\s*\}',
+     lambda m: 'stay:' + m.group(1)),
     (r'require_end_element \(context, ctx, "([^"]+)", element_name, error\)', lambda m: 'require:' + m.group(1)),
     (r'require_one_of_end_elements \(context, ctx,\s*element_name, error,([^;]*?)NULL\)',
      lambda m: 'require:' + '|'.join(re.findall(r'"([^"]+)"', m.group(1)))),
@@ -602,7 +606,15 @@ def end_table(fns):
             j += 1
             names.append(labs[j][2])
         end = labs[j + 1][0] if j + 1 < len(labs) else len(inner)
-        rows.append((names, tokens_of(inner[labs[j][1]:end])))
+        toks = tokens_of(inner[labs[j][1]:end])
+        # every end-tag test of the row must have been understood (a test in an unknown form would
+        # otherwise vanish from the table silently)
+        n_tests = len(re.findall(r'strcmp \(', inner[labs[j][1]:end]))
+        n_understood = (len([t for t in toks if t.startswith('stay:')]) + 3 * toks.count('if-type|array|varargs')
+                        + toks.count('if-attribute'))
+        if n_tests != n_understood:
+            shape('end_element_handler: case %s has %d end-tag tests, %d understood' % ('/'.join(names), n_tests, n_understood))
+        rows.append((names, toks))
         i = j + 1
     return rows
 
